@@ -16,6 +16,8 @@ type Cas struct {
 	// Cache for exists queries since we assume that during the runtime of a build
 	// the cache backend cannot lose a digest (grog does not delete during a build)
 	keyExistsCache sync.Map
+	// Same for digests that are known to be present in every store of the backend
+	keyFullyStoredCache sync.Map
 }
 
 func NewCas(
@@ -32,8 +34,9 @@ func (c *Cas) GetBackend() backends.CacheBackend {
 
 // Write writes a digest for a given reader
 func (c *Cas) Write(ctx context.Context, digest string, reader io.Reader) error {
-	if exists, err := c.Exists(ctx, digest); exists && err == nil {
-		// If the digest already exists, we don't need to write it again
+	if stored, err := c.isFullyStored(ctx, digest); stored && err == nil {
+		// If the digest already exists (in every store of the backend),
+		// we don't need to write it again
 		return nil
 	}
 
@@ -41,6 +44,7 @@ func (c *Cas) Write(ctx context.Context, digest string, reader io.Reader) error 
 	if err == nil {
 		// Mark the digest as existing in case later targets create the same digest
 		c.keyExistsCache.Store(digest, true)
+		c.keyFullyStoredCache.Store(digest, true)
 	}
 	return err
 }
@@ -63,6 +67,27 @@ func (c *Cas) LoadBytes(ctx context.Context, digest string) ([]byte, error) {
 	}
 	defer reader.Close()
 	return io.ReadAll(reader)
+}
+
+// isFullyStored tells whether a write of the digest can be skipped. For a backend that mirrors
+// a local store to a remote one the digest has to be present in both, otherwise a target result
+// written afterwards would reference a blob the remote never received.
+func (c *Cas) isFullyStored(ctx context.Context, digest string) (bool, error) {
+	checker, ok := c.backend.(backends.FullyStoredChecker)
+	if !ok {
+		return c.Exists(ctx, digest)
+	}
+	if cached, ok := c.keyFullyStoredCache.Load(digest); ok && cached.(bool) {
+		return true, nil
+	}
+	stored, err := checker.IsFullyStored(ctx, "cas", digest)
+	if err != nil {
+		return false, err
+	}
+	if stored {
+		c.keyFullyStoredCache.Store(digest, true)
+	}
+	return stored, nil
 }
 
 func (c *Cas) Exists(ctx context.Context, digest string) (bool, error) {
